@@ -14,6 +14,7 @@ from typing import Any, Dict, List, Optional, Tuple
 import numpy as np
 
 from mc import choices, netstack, qsim, simctl, world
+from mc.report import guard_harness as _guard
 from mc.report import add_sample, add_violation, count, new_part
 
 LEVEL = "exploration"
@@ -95,6 +96,7 @@ def check_keep(variant: str, hw: str, n: int, bells: Tuple[str, ...], others: in
         add_violation(part, f"blocks/{hw}/{variant}", f"subroutine blocks for ever: {exc}", case)
         return
     except Exception as exc:
+        _guard(exc)
         import traceback
         tb = traceback.extract_tb(exc.__traceback__)
         fn = next((f.name for f in reversed(tb) if "/netqasm/" in f.filename), "?")
@@ -157,6 +159,7 @@ def check_sequential(hw: str, n: int, bells: Tuple[str, ...], basis: str, expect
             epr.recv_keep(number=n, sequential=True, post_routine=post, expect_phi_plus=expect)
             conn.flush()
         except Exception as exc:
+            _guard(exc)
             return ("raised", f"{type(exc).__name__}: {str(exc).splitlines()[0][:120] if str(exc) else ''}")
         return ("ok", ctrl, link, [outs[i] for i in range(n)], conn, extra)
 
@@ -261,6 +264,7 @@ def shard_measure(shard):
                         r = make_result(ma, rot_sdk, rot_sdk, BellState[bell].value, post)
                         o = r.measurement_outcome
                     except Exception as exc:
+                        _guard(exc)
                         add_violation(part, f"measure-raises/{basis.name}", f"{type(exc).__name__}: {exc}", case)
                         ok = False
                         break
@@ -329,6 +333,7 @@ def shard_measure_pipeline(shard):
                         conn.flush()
                         outs = [r.measurement_outcome for r in res]
                     except Exception as exc:
+                        _guard(exc)
                         add_violation(part, f"raises/generic/{role}_measure/{fmt}", f"{type(exc).__name__}: {str(exc)[:120]}", case)
                         continue
                     for p in range(n):
